@@ -700,6 +700,8 @@ func (p *Parser) parseRawStatement() (*ast.RawStatement, error) {
 	}
 
 	statement.Value = p.curToken.Literal
+	// Line markers count the raw lines from the line of the opening backtick.
+	statement.Token.LineNumber = p.curToken.LineNumber
 	return statement, nil
 }
 
